@@ -15,7 +15,8 @@ Definition READ_SIZE : N := 4096.
 Inductive wevent :=
 | WConnect (conn : nat)
 | WTls (conn : nat)
-| WSend (conn : nat) (tls : bool) (data : bytes).
+| WSend (conn : nat) (tls : bool) (data : bytes)
+| WMark (conn : nat) (g : ghost).
 
 Inductive outcome :=
 | ODone (v : value) (st : cstate)
@@ -130,6 +131,9 @@ Section Interp.
             interp k (mkW s' [] (seg (w_n w) after) (Datatypes.S (w_n w))
                           (w_conn w) true (WTls (w_conn w) :: w_log w))
         end
+    | Mark g k =>
+        interp k (mkW (w_peer w) (w_buf w) (w_chunks w) (w_n w) (w_conn w) (w_tls w)
+                      (WMark (w_conn w) g :: w_log w))
     end.
 
   (* ---------------- stream semantics: no buffer, no chunks, no recv sizes *)
@@ -177,6 +181,9 @@ Section Interp.
             interp_s k (mkSW s' after (Datatypes.S (s_n w)) (s_conn w) true
                              (WTls (s_conn w) :: s_log w))
         end
+    | Mark g k =>
+        interp_s k (mkSW (s_peer w) (s_stream w) (s_n w) (s_conn w) (s_tls w)
+                         (WMark (s_conn w) g :: s_log w))
     end.
 
   Definition abs (w : world) : sworld :=
